@@ -151,7 +151,9 @@ func runScenario(sc *scen.Scenario, out *bufio.Writer) {
 	if len(sc.Tasks) > 0 {
 		w.runTasks()
 		if w.sch != nil && w.sch.budget != "" {
-			res.Budget = w.sch.budget
+			// past the yield budget the scheduler stops preempting and the tasks run to completion one
+			// after the other: the episode stays valid, it just explores no further switches
+			w.stats["sched.yield_budget_exhausted"]++
 		}
 		w.sch = nil
 	}
